@@ -36,13 +36,23 @@ func init() {
 }
 
 // c11Frame checks one frame's packets. k is the frame index on this instance.
-func c11Frame(c *fw.Ctx, p *codecs.VP8Payloader, pidOn bool, k int, mtu int, frame []byte, sampleEvery bool) bool {
+func c11Frame(c *fw.Ctx, p *codecs.VP8Payloader, kp *keeper, pidOn bool, k int, mtu int, frame []byte, sampleEvery bool) bool {
 	var pkts [][]byte
 	if pv, st := fw.Guard(func() { pkts = p.Payload(uint16(mtu), frame) }); pv != nil {
 		c.Fail("C11/payloader/panic/"+fw.PanicFunc(st), fmt.Sprintf("VP8Payloader.Payload panicked: %v", pv), fw.W("mtu", mtu, "frame_len", len(frame), "frame_index", k, "stack", st))
 		return false
 	}
 	c.Evals(1)
+	if kp != nil {
+		// the packet lists of earlier frames are still queued by the application: they stay what they were
+		if len(pkts) <= 64 && len(kp.lists) < 48 {
+			kp.addList(fmt.Sprintf("the packet list returned for frame %d", k), pkts)
+		}
+		if what, ch := kp.changed(); ch {
+			c.Fail("C11/payloader/earlier-result-changed-by-a-later-call", "a later Payload call changed "+what, fw.W("mtu", mtu, "frame_index", k))
+			return false
+		}
+	}
 	wantID := uint16(k % 32768)
 	wit := func(extra ...any) map[string]any {
 		m := fw.W("mtu", mtu, "frame_len", len(frame), "frame_index_on_instance", k, "picture_ids", pidOn, "expected_picture_id", wantID, "packets", fw.HexList(truncList(pkts, 24)))
@@ -156,6 +166,7 @@ func c11Short(c *fw.Ctx, i int) {
 	p := &codecs.VP8Payloader{EnablePictureID: pidOn}
 	n := r.Pick(3, 5, 130, 131, r.Range(3, 300))
 	var fork *codecs.VP8Payloader
+	var kpP, kpF keeper
 	for k := 0; k < n; k++ {
 		desc := 1
 		if pidOn {
@@ -195,12 +206,12 @@ func c11Short(c *fw.Ctx, i int) {
 			frame = gen.VP8Frame(r, fl, r.Chance(2, 3), boundary)
 			c.Count("frames_shaped_like_vp8_bitstreams", 1)
 		}
-		if !c11Frame(c, p, pidOn, k, mtu, frame, k == 0 || k == 127 || k == 128) {
+		if !c11Frame(c, p, &kpP, pidOn, k, mtu, frame, k == 0 || k == 127 || k == 128) {
 			return
 		}
 		if fork != nil {
 			// the copy taken earlier runs on as an instance of its own: same frame index, its own state
-			if !c11Frame(c, fork, pidOn, k, mtu, append([]byte(nil), frame...), false) {
+			if !c11Frame(c, fork, &kpF, pidOn, k, mtu, append([]byte(nil), frame...), false) {
 				return
 			}
 		} else if k+1 < n && r.Chance(1, 40) {
@@ -219,6 +230,7 @@ func c11Long(c *fw.Ctx, i int) {
 	r := c.R
 	p := &codecs.VP8Payloader{EnablePictureID: true}
 	n := 66000 // two wraps of the 15-bit picture id
+	var kpL keeper
 	for k := 0; k < n; k++ {
 		mtu := 6
 		fl := 1
@@ -227,7 +239,7 @@ func c11Long(c *fw.Ctx, i int) {
 			mtu = r.Pick(5, 6, 7, 20)
 			fl = r.Range(1, 30)
 		}
-		if !c11Frame(c, p, true, k, mtu, r.Bytes(fl), interesting) {
+		if !c11Frame(c, p, &kpL, true, k, mtu, r.Bytes(fl), interesting) {
 			return
 		}
 	}
